@@ -4,6 +4,7 @@ Theorems about `Model/Alloc.lean` for every heap, every mutator history and ever
 schedule (which allocations collect, nursery or full).
 -/
 import LaytheVerif.Lemmas.AllocIntern
+import LaytheVerif.Lemmas.AllocGen
 namespace LaytheVerif.C05
 open LaytheVerif.Alloc
 
